@@ -102,3 +102,8 @@ Qed.
 (* the guard of C02_edges_nodup_if_declared_distinct holds for ex_raw's ... no: ex_raw declares (1,0) and (0,1); a distinct one: *)
 Example ex_declared_distinct : NoDup (filter (evalid 4) (map kedge [(1, 0); (3, 3); (2, 3); (9, 1)])).
 Proof. vm_compute. repeat constructor; cbn; intuition discriminate. Qed.
+
+(* a construction that raises: completion off and the cell's faces not supplied *)
+Example ex_failed_prepare :
+  prepare (false, true) (mkRaw [[0;0;0];[1;0;0];[0;1;0];[0;0;1]] [] [] [[1;3;2]] [] [] [[0;1;2;3]] [] [] [] []) = Err EKey.
+Proof. vm_compute. reflexivity. Qed.
